@@ -219,6 +219,8 @@ def facts():
             raise ParseFailure("no write-back site of class %s found" % cls)
         f["wb_" + cls] = all(s_["written_back"] for s_ in mine)
     f.update(de_row_facts())
+    f.update(order_facts())
+    f.update(macro_facts())
     return f
 
 
@@ -240,7 +242,9 @@ def emit(f):
               "wb_push", "wb_buffer_push", "wb_extend", "wb_reserve", "wb_shrink", "wb_other",
               "de_row_pops", "de_row_complete_flag",
               "task_system_self_send", "task_system_views_send", "task_system_res_send", "task_system_entry_send",
-              "task_parsystem_self_send", "task_parsystem_views_send", "task_parsystem_res_send", "task_parsystem_entry_send"]:
+              "task_parsystem_self_send", "task_parsystem_views_send", "task_parsystem_res_send", "task_parsystem_entry_send",
+              "clear_sets_length_first", "adopt_requires_no_allocation",
+              "entities_macro_evaluates_size_once", "entities_macro_unchecked_arms_known"]:
         o.append("Definition fact_%s : bool := %s." % (k, b(f[k])))
     o.append("Definition world_literal_sites : list string := [%s]." % "; ".join('"%s"' % s for s in f["literal_sites"]))
     o.append("Definition batch_literal_sites : list string := [%s]." % "; ".join('"%s"' % s for s in f["batch_literal_sites"]))
@@ -362,6 +366,67 @@ def de_row_facts():
     wired = re.search(r"entity_identifiers,components,length,complete,?\}", n2) is not None
     loop = re.search(r"foriin0\.\.self\.0\.length\{letmutrow_complete=false;letresult=seq\.next_element_seed\(unsafe\{DeserializeRow::new\(self\.0\.identifier\.as_ref\(\),&mutentity_identifiers,&mutcomponents,vec_length,&mutrow_complete,?\)\},?\);ifletErr\(error\)=result\{ifrow_complete\{vec_length\+=1;\}", n2) is not None
     f["de_row_complete_flag"] = sets and wired and loop
+    return f
+
+
+# ---------------------------------------------------------------------------------------------
+# Ordering / guard facts of the column store (C17 finding F8b, C05 batch adoption)
+
+def order_facts():
+    f = {}
+    src = read("src/archetype/mod.rs")
+    ok = {}
+    for fn in ("clear", "clear_detached"):
+        bs = [norm(b) for q, n, b in fn_bodies(src) if n == fn]
+        if len(bs) != 1:
+            raise ParseFailure("archetype/mod.rs: fn %s" % fn)
+        b = bs[0]
+        i_len = b.find("letlength=self.length;self.length=0;")
+        i_clr = b.find("R::clear_components(&mutself.components,length,self.identifier.iter())")
+        ok[fn] = 0 <= i_len < i_clr and "R::clear_components(&mutself.components,self.length" not in b
+    # is the archetype's length 0 BEFORE the components of a cleared archetype are dropped?
+    f["clear_sets_length_first"] = ok["clear"] and ok["clear_detached"]
+    # a caller's Vec is adopted as a column only if the column is empty AND owns no allocation
+    e = read("src/entities/sealed/storage.rs")
+    bs = [norm(b) for q, n, b in fn_bodies(e) if n == "extend_components" and ".extend(" in b]
+    if len(bs) != 1:
+        raise ParseFailure("entities/sealed/storage.rs: extend_components")
+    f["adopt_requires_no_allocation"] = bool(re.search(
+        r"iflength==0&&component_column\.1==0\{letmutv=ManuallyDrop::new\(self\.0\);\*component_column=\(v\.as_mut_ptr\(\)\.cast::<u8>\(\),v\.capacity\(\)\);\}else\{",
+        bs[0]))
+    return f
+
+
+# ---------------------------------------------------------------------------------------------
+# The `entities!` macro calls `Batch::new_unchecked` in safe-looking code (finding F10)
+
+def macro_facts():
+    f = {}
+    src = strip_comments(read("src/entities/mod.rs"))
+    m = re.search(r"macro_rules!\s*entities\s*\{", src)
+    if not m:
+        raise ParseFailure("entities/mod.rs: macro_rules! entities")
+    d, k = 1, m.end()
+    while d and k < len(src):
+        d += {"{": 1, "}": -1}.get(src[k], 0)
+        k += 1
+    body = norm(src[m.end():k - 1])
+    # arms: `(pattern) => { expansion };`
+    arms = [a for a in body.split("};") if "=>" in a]
+    unchecked = [a for a in arms if "new_unchecked(" in a]
+    cloned = [a for a in unchecked if a.startswith("(($component:expr$(,$components:expr)*$(,)?);$n:expr)=>")]
+    ok = False
+    if len(cloned) == 1:
+        exp = cloned[0].split("=>", 1)[1]
+        ok = (exp.count("$n") == 1 and re.search(r"letn(:usize)?=\$n;", exp) is not None
+              and "vec![$component;n]" in exp and re.search(r"entities!\(@cloned\(\$\(\$components\),\*\);n\)", exp) is not None)
+    f["entities_macro_evaluates_size_once"] = ok
+    # the other arms that reach new_unchecked: the transposition (rectangular by the macro pattern itself) and the two
+    # component-less ones (no column at all)
+    others = [a for a in unchecked if a not in cloned]
+    f["entities_macro_unchecked_arms_known"] = (len(cloned) == 1 and len(others) == 3
+        and sum(1 for a in others if "@transpose[]" in a) == 1
+        and sum(1 for a in others if "new_unchecked($crate::entities::Null)" in a) == 2)
     return f
 
 
